@@ -132,7 +132,14 @@ impl Model {
                 self.out.push((self.now, true, k.clone()));
             }
         }
-        self.prev = cur;
+        // (one OS release per key, however many entries of the list held it down)
+        let mut cur_dedup: Vec<String> = vec![];
+        for k in cur {
+            if !cur_dedup.contains(&k) {
+                cur_dedup.push(k);
+            }
+        }
+        self.prev = cur_dedup;
         if self.release_on_activation {
             let rm: Vec<String> = remove.iter().filter(|k| !Self::is_mod(k)).cloned().collect();
             self.ents.retain(|e| !rm.contains(&e.code));
